@@ -839,6 +839,11 @@ func (vfs *MemFS) Rename(oldpath, newpath string) error {
 	}
 
 	if oPI.Path() == nPI.Path() {
+		if _, ok := oChild.(*dirNode); ok && vfs.OSType() != avfs.OsWindows {
+			// os.Rename refuses an existing directory as new name, the directory itself included.
+			return &os.LinkError{Op: op, Old: oldpath, New: newpath, Err: vfs.err.FileExists}
+		}
+
 		return nil
 	}
 
